@@ -121,6 +121,27 @@ fn full_keyboard_bits() -> Vec<u32> {
 const KB_NAMES: &[&str] = &["AT Translated Set 2 keyboard", "Logitech USB Keyboard", "Dell KB216 Wired Keyboard", "Keychron K2", "HID 046a:0011", "ThinkPad Extra Buttons Board", "Das \"Ultimate\" 4", "Tastatur \u{e4}\u{f6}\u{fc}", "kbd*[x]?", "SONiX USB DEVICE ", "Apple Inc. Magic Keyboard", "ErgoDox EZ"];
 const MOUSE_NAMES: &[&str] = &["Logitech Gaming Mouse G502", "Razer DeathAdder Mouse", "PS/2 Generic Mouse", "USB Optical Mouse", "SteelSeries Rival Mouse 3"];
 
+fn vary_name(src: &mut Src, name: &str) -> String {
+  match src.below(8) {
+    0 => name.to_lowercase(),
+    1 => name.to_uppercase(),
+    2 => {
+      // one word in the other case
+      let words: Vec<&str> = name.split(' ').collect();
+      let j = src.below(words.len().max(1));
+      words.iter().enumerate().map(|(i, w)| if i == j { if w.chars().any(|c| c.is_uppercase()) { w.to_lowercase() } else { w.to_uppercase() } } else { w.to_string() }).collect::<Vec<_>>().join(" ")
+    }
+    3 => {
+      // first letter of every word in the other case
+      name.split(' ').map(|w| { let mut cs = w.chars(); match cs.next() { Some(c) => { let f: String = if c.is_uppercase() { c.to_lowercase().collect() } else { c.to_uppercase().collect() }; format!("{}{}", f, cs.as_str()) } None => String::new() } }).collect::<Vec<_>>().join(" ")
+    }
+    4 => { let mut cs: Vec<char> = name.chars().collect(); if !cs.is_empty() { let j = src.below(cs.len()); cs.remove(j); } cs.into_iter().collect() }
+    5 => format!("{}{}", src.pick(&["x", "2.4G wireless ", "USB-", "my"]), name),
+    6 => format!("{}{}", name, src.pick(&["s", " mouse", " Mouse", " KEYBOARD", "pad", " cros_ec"])),
+    _ => src.pick(&["2.4G wireless mouse", "MOUSE", "mouse", "Keyboard", "KEYBOARD", "KeyBoard mouse", "Cros_ec", "cros_ec keyboard", "CROS_EC", "optical mOUSE"]).to_string(),
+  }
+}
+
 fn gen_entry(src: &mut Src, idx: usize) -> Entry {
   // numbers with different leading digits (a prefix test that is too long must not hide)
   const INPUT_NOS: [u32; 14] = [2, 37, 4, 58, 6, 71, 8, 93, 10, 115, 21, 206, 49, 300];
@@ -191,6 +212,20 @@ fn gen_entry(src: &mut Src, idx: usize) -> Entry {
       Entry { arch: "bit-soup".into(), name: Some(src.pick(&["Mouse", "keyboard", "KEYBOARD Mouse", "", "x", "cros_ec ", "Gaming Mouse Keyboard"]).to_string()), sysfs: Some(if src.chance(20) { virt_sysfs } else { phys_sysfs }), ev: Some(mask_words(&evb)), key: Some(if src.chance(10) { "zz 12".to_string() } else { mask_words(&bits) }), extra: vec!["H:".into()], event_no: Some(event_no), devname_line: true, truth: None }
     }
   };
+  // spelling variants of the name: the words the code looks for ("Mouse", "keyboard", "cros_ec")
+  // in another case, cut short, doubled or glued to other text - what one extractor treats
+  // specially the other must treat the same way
+  if src.chance(22) {
+    if let Some(n) = e.name.clone() {
+      let v = vary_name(src, &n);
+      if v != n {
+        e.name = Some(v);
+        if e.arch == "gaming-mouse" || e.arch == "cros_ec" {
+          e.truth = None;
+        }
+      }
+    }
+  }
   // fields other than I: dropped at random
   if src.chance(18) {
     match src.below(5) {
